@@ -179,6 +179,24 @@ theorem C07_guaranteed_trigger_probabilistic_partial (s : Prob) (now : Int) (hN 
     exact Nat.mod_eq_zero_of_dvd (Nat.dvd_trans this (Nat.dvd_mul_right _ _))
   simp only [hf, if_true]
 
+/-- when `N` is a power of two the trigger is exact for EVERY operation count, wrapped or not:
+    the write whose operation number is a multiple of `N` sweeps (the multiplier is odd, and
+    `2^k` divides `2^64`) -/
+theorem C07_guaranteed_trigger_probabilistic_pow2 (s : Prob) (now : Int) (k : Nat) (hk : k ≤ 64)
+    (hN : s.modulus = 2 ^ k) (hdiv : (s.opsCount + 1) % 2 ^ k = 0) :
+    (s.maybeCleanup now).data = s.data.sweep now := by
+  unfold Prob.maybeCleanup
+  have hf : Prob.fires (s.opsCount + 1) s.modulus = true := by
+    unfold Prob.fires TWO64
+    have h64 : (18446744073709551616 : Nat) = 2 ^ 64 := by decide
+    have hpos : (2 : Nat) ^ k ≠ 0 := Nat.pos_iff_ne_zero.mp (Nat.pow_pos (by decide))
+    rw [hN]
+    simp only [hpos, if_false, decide_eq_true_eq]
+    rw [h64, Nat.mod_mod_of_dvd _ (Nat.pow_dvd_pow 2 hk)]
+    have : 2 ^ k ∣ (s.opsCount + 1) := Nat.dvd_of_mod_eq_zero hdiv
+    exact Nat.mod_eq_zero_of_dvd (Nat.dvd_trans this (Nat.dvd_mul_right _ _))
+  simp only [hf, if_true]
+
 /-- with modulus 1 EVERY write sweeps, wrapped or not -/
 theorem C07_guaranteed_trigger_probabilistic_every (s : Prob) (now : Int) (hN : s.modulus = 1) :
     (s.maybeCleanup now).data = s.data.sweep now := by
